@@ -26,6 +26,20 @@ def run_case(case, infos, devs):
     latency = (lambda line, idx: max(0, lat + rng.randrange(-(lat // 2), lat // 2 + 1))) if case["jitter"] and lat > 3 else lat
     s = AS.ApiSession(case["seed"], rx, latency_us=latency, switch_prob=case["switch_prob"])
     s.present = present
+    # a receiver in low-power mode uses the first line(s) it gets only to wake up and never answers them (this is what
+    # the connection's double start-up probe exists for): drawn from a generator of its own
+    zr = random.Random(case["seed"] ^ 0x51EE9)
+    sleepy = zr.choice([1, 1, 2]) if zr.random() < 0.3 else 0
+    case["sleepy_first_lines"] = sleepy
+    if sleepy:
+        base_respond = s.dev.respond
+
+        def respond(line, idx):
+            if idx < sleepy:
+                return []
+            return base_respond(line, idx)
+
+        s.dev.respond = respond
 
     def body(s):
         api = s.make_api()
